@@ -37,7 +37,7 @@ func (c pcase) runLossyValue(ms *monitors, slow time.Duration) {
 	in.Op = "lossy-" + c.Kind
 	var E func(x, y proto.Message) bool
 	if c.Spec != nil {
-		E = c.Spec.build()
+		E = guarded(c.Spec.build())
 	}
 	opts := c.options()
 	if c.Cur != nil {
@@ -124,7 +124,7 @@ func (c pcase) runLossyCollection(ms *monitors, slow time.Duration) {
 	in.Op = "lossy-" + c.Kind
 	var E func(x, y proto.Message) bool
 	if c.Spec != nil {
-		E = c.Spec.build()
+		E = guarded(c.Spec.build())
 	}
 	col := resource.NewCollection(c.options()...)
 	ctx, cancel := context.WithCancel(context.Background())
